@@ -35,6 +35,7 @@ LEAN_SOURCES = ["FaxVerif/C07", "FaxVerif/Generated/C07Defaults.lean"]
 DRIVER = "FaxVerif/C07/Driver.lean"
 THEOREMS = [
     "FaxVerif.C07.reset_restores",
+    "FaxVerif.C07.reset_restores_result",
     "FaxVerif.C07.result_depends_on_view_only",
     "FaxVerif.C07.clean_new_indep",
     "FaxVerif.C07.clean_on_indep",
@@ -62,10 +63,10 @@ THEOREMS = [
 ]
 RULE = (
     "case = (history of <=8 (quick) / <=14 (thorough) operations, probe): operations are `new executor` of any of the 3 "
-    "backends, `add_extended_md`, `translate` of a catalogue query (21 queries over the 3 backends: scalar/sequence/tuple "
+    "backends, `add_extended_md`, `translate` of a catalogue query (23 queries over the 3 backends: scalar/sequence/tuple "
     "results, default-typed methods, own collections, C++ functions, enums) with 0-4 metadata dictionaries drawn from all "
     "kinds (method types incl. collection types, enums, inject_code, job scripts, C++ functions, collections of the right "
-    "and the wrong backend, extended metadata, malformed) and an intended ending (success 60%, failure in process_metadata, "
+    "and the wrong backend, extended metadata, malformed) and an intended ending (success ~60%, failure in process_metadata, "
     "in the func_adl rewrites, in the C++ finder, in write_cpp_files); the probe is a catalogue query with its own "
     "metadata, on a new executor or on an existing one. Every case runs in its own Python process; the candidate history "
     "is cut before the first operation outside the theorems' hypotheses. Non-trivial = the history contains at least one "
@@ -854,7 +855,7 @@ LEVEL_TEXT = (
     "the recorded outcomes) then the probe's result equals the result in a fresh process — on a new executor "
     "(history_indep_partial) and on an existing one (history_indep_on_partial); reset_restores / success_heals_partial "
     "show that ANY earlier state is repaired by one translation that reaches reset() except enum definitions and the "
-    "shared default dict; ten leak_counterexample_* theorems show each excluded class really breaks the statement in "
+    "shared default dict; eleven leak_counterexample_* theorems show each excluded class really breaks the statement in "
     "the model, and each is replayed on the real code as a listed finding. The model is tied to the code on every run by "
     "comparing the observable state after every operation of random histories and by regenerating the backends' default "
     "tables; the property itself is evaluated reference-free (fresh interpreter) on every benign history generated."
